@@ -5,7 +5,7 @@ set -u
 V="$(cd "$(dirname "$0")/.." && pwd)"   # the verification directory this script lives in (normally /verif)
 WT="$1"; PATCH="$(realpath "$2")"; TIER="$3"; shift 3
 export VERIF_REPO="$WT"
-git -C "$WT" checkout -q -- . ; git -C "$WT" clean -fdq -e seed >/dev/null 2>&1
+git -C "$WT" checkout -q -- . ; git -C "$WT" clean -fdq -e seed -e TASK.md -e PROPERTY.json -e BYPRODUCTS.md >/dev/null 2>&1
 git -C "$WT" apply "$PATCH" || { echo "patch does not apply"; exit 2; }
 trap 'git -C "$WT" checkout -q -- .' EXIT
 if $V/bin/baseline > "$WT.base.$$" 2>&1; then echo "suite: PASS (change survives the existing tests)"; else echo "suite: FAIL"; tail -5 "$WT.base.$$"; fi
